@@ -52,6 +52,7 @@ func propStore(k int64) VPred {
 }
 
 func runC14(r *Run) {
+	checkAllStores(r, "C14.allstores", "(*data/governance.ProposalStore)", "a proposal id can be created again while its first proposal sits in that store: funds and fee are taken twice and two proposals share one id")
 	p := r.P
 	active, passed, failedS := govConst(p, "ProposalStateActive"), govConst(p, "ProposalStatePassed"), govConst(p, "ProposalStateFailed")
 	finalized, finFailed := govConst(p, "ProposalStateFinalized"), govConst(p, "ProposalStateFinalizeFailed")
